@@ -76,6 +76,10 @@ func (fc *FuncCtx) sortOfSType(t *SType, env *SpecEnv) *Sort {
 	if gt := fc.lookupGoType(t, env); gt != nil {
 		return fc.sortOf(gt)
 	}
+	if len(t.Name) > 0 && t.Name[0] >= 'A' && t.Name[0] <= 'Z' && !strings.Contains(t.Name, ".") {
+		// an engine-level uninterpreted sort (Reflect_Value, Float, Any, ...)
+		return fc.Sorts.declUnint(t.Name)
+	}
 	fc.specFail("unknown spec type " + t.Name)
 	return SInt
 }
@@ -530,10 +534,51 @@ func (fc *FuncCtx) specCall(x SCall, env *SpecEnv) Term {
 		return Select(h, arg(0))
 	case "glob":
 		name := x.Args[0].(SIdent).Name
-		if t, ok := env.st.glob[name]; ok {
-			return t
+		if ty, ok := fc.E.CS.Globals[name]; ok {
+			return fc.globOf(env.st, name, fc.sortOfSType(ty, nil))
 		}
 		return fc.specFail("unknown global state component " + name)
+	case "mapsframe":
+		return fc.mapsFrame(env, nil)
+	case "mapsframe_except":
+		m := arg(0)
+		return fc.mapsFrame(env, &m)
+	case "bufsframe_except":
+		b := arg(0)
+		h := fc.bufHeap(env.st)
+		h0 := fc.bufHeap(env.old)
+		return T(fmt.Sprintf("(forall ((r Int)) (! (=> (and (< r %s) (not (= r %s))) (= (select %s r) (select %s r))) :pattern ((select %s r))))", env.old.next.S, b.S, h.S, h0.S, h.S), SBool)
+	case "bufsframe":
+		h := fc.bufHeap(env.st)
+		h0 := fc.bufHeap(env.old)
+		if h.S == h0.S {
+			return True
+		}
+		return T(fmt.Sprintf("(forall ((r Int)) (! (=> (< r %s) (= (select %s r) (select %s r))) :pattern ((select %s r))))", env.old.next.S, h.S, h0.S, h.S), SBool)
+	case "box":
+		return fc.boxAny(arg(0))
+	case "fmtverb":
+		v := x.Args[0].(SStr).V
+		return fc.fmtVerb(v[0], arg(1))
+	case "sprintf":
+		var ts []Term
+		for i := range x.Args {
+			ts = append(ts, arg(i))
+		}
+		return fc.sprintfUninterp(ts[0], ts[1:])
+	case "optpassed":
+		// optpassed(t): one of the optional (variadic) actuals o1..o6 of an extern call equals t
+		t := arg(0)
+		var ds []Term
+		for _, n := range []string{"o1", "o2", "o3", "o4", "o5", "o6"} {
+			if a, ok := env.bound[n]; ok && a.Sort.SMT() == t.Sort.SMT() {
+				ds = append(ds, Eq(a, t))
+			}
+		}
+		return Or(ds...)
+	case "zero":
+		// zero(x): the zero value of x's sort
+		return fc.zeroOfSort(arg(0).Sort, nil)
 	// SMT string theory
 	case "substr":
 		return App(SString, "str.substr", arg(0), arg(1), arg(2))
@@ -774,6 +819,11 @@ func (fc *FuncCtx) evalPure(e ast.Expr, st *St) Term {
 func (fc *FuncCtx) applySpecFun(sf *SpecFun, args []Term, env *SpecEnv) Term {
 	fc.declareSpecFun(sf, env)
 	rs := fc.sortOfSType(sf.Ret, nil)
+	for i := range args {
+		if i < len(sf.Params) {
+			args[i] = fc.coerceSort(args[i], fc.sortOfSType(sf.Params[i].Type, nil))
+		}
+	}
 	if len(args) == 0 {
 		return T(sf.Name, rs)
 	}
@@ -960,4 +1010,40 @@ func (fc *FuncCtx) ltTerm(a, b Term) Term {
 		fc.Assumed["cmp.Ordered type parameter: < is a strict total order (floats with NaN excluded)"] = true
 	}
 	return App(SBool, n, a, b)
+}
+
+// mapsFrame: every map that existed at old is unchanged (except the one given).
+func (fc *FuncCtx) mapsFrame(env *SpecEnv, except *Term) Term {
+	var cs []Term
+	var ks []string
+	for k := range env.st.mdom {
+		ks = append(ks, k)
+	}
+	sortStrings(ks)
+	for _, k := range ks {
+		d := env.st.mdom[k]
+		ksort := d.Sort.Elem.Key
+		var vsort *Sort
+		if v, ok := env.st.mval[k]; ok {
+			vsort = v.Sort.Elem.Elem
+		} else if v, ok := env.old.mval[k]; ok {
+			vsort = v.Sort.Elem.Elem
+		} else {
+			continue
+		}
+		d0 := fc.mapDom(env.old, ksort, vsort)
+		v := fc.mapVal(env.st, ksort, vsort)
+		v0 := fc.mapVal(env.old, ksort, vsort)
+		ex := ""
+		if except != nil && mkey(except.Sort.Key, except.Sort.Elem) == k {
+			ex = fmt.Sprintf(" (not (= r %s))", except.S)
+		}
+		if d.S != d0.S {
+			cs = append(cs, T(fmt.Sprintf("(forall ((r Int)) (! (=> (and (< r %s)%s) (= (select %s r) (select %s r))) :pattern ((select %s r))))", env.old.next.S, ex, d.S, d0.S, d.S), SBool))
+		}
+		if v.S != v0.S {
+			cs = append(cs, T(fmt.Sprintf("(forall ((r Int)) (! (=> (and (< r %s)%s) (= (select %s r) (select %s r))) :pattern ((select %s r))))", env.old.next.S, ex, v.S, v0.S, v.S), SBool))
+		}
+	}
+	return And(cs...)
 }
